@@ -59,7 +59,9 @@ def strategy(shard):
         if draw(st.integers(0, 2)) == 0:
             mark = st.sampled_from([None, None, {"X": 1}, {"Y": True}, {"X": 1, "Y": 1}, {"X": 1, "Y": 1, "Z": 1}, {}])
             aux = {"first": draw(st.booleans()), "n_winners": draw(st.sampled_from([1, 1, 2])), "ballots": [draw(mark) for _ in range(n)]}
-        return {"kind": kind, "cands": cands, "winners": winners, "f": f, "ballots": ballots, "aux": aux}
+        return {"kind": kind, "cands": cands, "winners": winners, "f": f, "ballots": ballots, "aux": aux,
+                # what the records are called is nobody's business in a tally: unnamed records, or all under one default name
+                "ids": draw(st.sampled_from(["unique", "unique", "unique", "none", "same"]))}
 
     return case()
 
@@ -106,9 +108,11 @@ def build(case, use_style):
     cvrs = []
     for i, b in enumerate(case["ballots"]):
         votes = {} if b is None else {"con": dict(b)}
+        ids = case.get("ids", "unique")
+        cid = f"c{i}" if ids == "unique" else (None if ids == "none" else "1")
         if aux and aux["ballots"][i] is not None:
             votes = {"aux": dict(aux["ballots"][i]), **votes} if i % 2 else {**votes, "aux": dict(aux["ballots"][i])}
-        cvrs.append(CVR(id=f"c{i}", votes=votes))
+        cvrs.append(CVR(id=cid, votes=votes))
     return contests, con, cvrs, losers
 
 
